@@ -76,8 +76,5 @@ func BFS(c *Ctx, cfg BFSConfig) BFSResult {
 	}
 	res.Depth = depth
 	res.Closed = len(frontier) == 0
-	if !res.Closed {
-		c.NotExhaustive("depth bound reached before closure in BFS " + cfg.Name)
-	}
 	return res
 }
